@@ -167,7 +167,10 @@ def plan(tier):
                 tasks.append(dict(harness='wellformed', cfg=dict(stack=st, lag=lag, int=0, **variant), opts=opts))
         if not quick:
             tasks.append(dict(harness='wellformed', cfg=dict(stack=st, lag=0, int=0, symdates=2), opts=opts))
-            tasks.append(dict(harness='wellformed', cfg=dict(stack=st, lag=0, int=1, symdates=0), opts=opts))
+            if st != 'targetvol':
+                # TargetVol before enough history yields NaN weights; with whole-unit positions Rebalance then raises on floor(NaN): outside the
+                # well-formed class (the stack would be gated by RunAfterDays in practice)
+                tasks.append(dict(harness='wellformed', cfg=dict(stack=st, lag=0, int=1, symdates=0), opts=opts))
     for k in ILL:
         tasks.append(dict(harness='illformed', cfg=dict(kind=k), opts=opts))
     return tasks
